@@ -64,7 +64,7 @@ Definition sse_pass (cc : callconv) (va : bool) (t : Z) : bool :=
    for every type of the universe of each convention) *)
 Definition agree_comp (a : abi_id) (cc : callconv) (q : seqabi) (va : bool) (c : comp) : bool :=
   let t := c_ty c in
-  negb (t =? 0) &&
+  negb (t =? 0) && implb (c_lo c) (c_half c) &&
   match q_cls q va c with
   | KInt => ty_is_int t && (q_int_rt q t =? (if t <=? 39 then RT_Gp32 else RT_Gp64))
             && (own_size a c =? Z.max (size_of t) (reg_size (cc_arch cc)))
@@ -120,7 +120,7 @@ Lemma x86_value_sim a cc q va c pre nsaa s :
   loc_of v = l /\ xinv q va (pre ++ [c]) n' s'.
 Proof.
   intros R A I G. destruct R as [Rgp Rvec Lgp Lvec Fgp Fvec]. destruct I as (Ig & Iv & Io).
-  unfold agree_comp in A. apply andb_prop in A. destruct A as [_ A].
+  unfold agree_comp in A. apply andb_prop in A. destruct A as [A0 A]. apply andb_prop in A0. destruct A0 as [_ Alo].
   unfold guard_comp in G. unfold spec_step, seq_reg in *. unfold xinv. rewrite !count_cls_app.
   destruct (q_cls q va c) eqn:K; cbn [acls_eqb].
   - (* INTEGER class *)
@@ -128,18 +128,28 @@ Proof.
     apply Z.eqb_eq in A2. apply Z.eqb_eq in A3.
     rewrite (xval_int _ _ _ _ A1). cbv zeta. rewrite Rgp.
     pose proof (reg_lookup (q_int_regs q) (count_cls q va KInt pre) (x_gp s) Lgp Fgp (count_cls_nonneg _ _ _ _) Ig) as L.
-    destruct (nth_error (q_int_regs q) (Z.to_nat (count_cls q va KInt pre))) as [r|] eqn:E.
-    + destruct L as (L1 & L2 & L3). rewrite L1.
-      assert ((r =? 255) = false) as -> by (apply Z.eqb_neq; exact L2). cbn [negb].
-      split.
-      * unfold loc_of, fv_reg, L_reg. cbn. rewrite A2. reflexivity.
-      * cbn [x_gp x_vec x_off]. split; [lia|]. split; [lia | exact Io].
-    + destruct L as (L1 & L2 & L3). rewrite L1. cbn [Z.eqb negb].
+    destruct (c_lo c && negb (count_cls q va KInt pre + 2 <=? Z.of_nat (length (q_int_regs q)))) eqn:LO.
+    + (* the low word of a 64-bit integer that does not fit as a pair: the ABI says stack; the guard says the registers are used up *)
+      apply andb_prop in LO. destruct LO as [LO1 _]. rewrite LO1 in Alo. cbn [implb] in Alo.
       apply andb_prop in G. destruct G as [G G3]. apply andb_prop in G. destruct G as [G1 G2].
-      apply Z.eqb_eq in G1. apply Z.eqb_eq in G2.
+      apply Z.eqb_eq in G1. apply Z.eqb_eq in G2. rewrite Alo in G3. apply Z.leb_le in G3.
+      assert (E : nth_error (q_int_regs q) (Z.to_nat (count_cls q va KInt pre)) = None) by (apply nth_error_None; lia).
+      rewrite E in L. destruct L as (L1 & L2 & L3). rewrite L1. cbn [Z.eqb negb].
       split.
       * unfold loc_of, fv_stack, L_stack. cbn. rewrite G1, Io. reflexivity.
       * cbn [x_gp x_vec x_off]. split; [lia|]. split; [lia|]. rewrite G1, G2, A3, Io. reflexivity.
+    + destruct (nth_error (q_int_regs q) (Z.to_nat (count_cls q va KInt pre))) as [r|] eqn:E.
+      * destruct L as (L1 & L2 & L3). rewrite L1.
+        assert ((r =? 255) = false) as -> by (apply Z.eqb_neq; exact L2). cbn [negb].
+        split.
+        -- unfold loc_of, fv_reg, L_reg. cbn. rewrite A2. reflexivity.
+        -- cbn [x_gp x_vec x_off]. split; [lia|]. split; [lia | exact Io].
+      * destruct L as (L1 & L2 & L3). rewrite L1. cbn [Z.eqb negb].
+        apply andb_prop in G. destruct G as [G G3]. apply andb_prop in G. destruct G as [G1 G2].
+        apply Z.eqb_eq in G1. apply Z.eqb_eq in G2.
+        split.
+        -- unfold loc_of, fv_stack, L_stack. cbn. rewrite G1, Io. reflexivity.
+        -- cbn [x_gp x_vec x_off]. split; [lia|]. split; [lia|]. rewrite G1, G2, A3, Io. reflexivity.
   - (* SSE class *)
     apply andb_prop in A. destruct A as [A A5]. apply andb_prop in A. destruct A as [A A4].
     apply andb_prop in A. destruct A as [A A3]. apply andb_prop in A. destruct A as [A1 A2].
@@ -213,7 +223,8 @@ Proof.
     pose proof (x86_value_sim a cc q va c pre nsaa s R A1 I G1) as S.
     cbn [map x86_default_pack seq_comps].
     assert ((c_ty c =? 0) = false) as ->.
-    { unfold agree_comp in A1. apply andb_prop in A1. destruct A1 as [A1 _]. apply negb_true_iff in A1. exact A1. }
+    { unfold agree_comp in A1. apply andb_prop in A1. destruct A1 as [A1 _]. apply andb_prop in A1. destruct A1 as [A1 _].
+      apply negb_true_iff in A1. exact A1. }
     destruct (x86_default_value cc va s (c_ty c)) as [v s1].
     unfold spec_step in S.
     destruct (seq_reg q va pre c) as [[rt id]|].
@@ -266,13 +277,19 @@ Qed.
 
 Definition a64_agree (a : abi_id) (q : seqabi) (va : bool) (m : Z) (c : comp) : bool :=
   let t := c_ty c in
-  negb (t =? 0) && (0 <? q_align q c) && (negb (8 <=? Z.max (size_of t) m) || (q_align q c mod 8 =? 0)) &&
+  negb (c_lo c) && negb (t =? 0) && (0 <? q_align q c) && (negb (8 <=? Z.max (size_of t) m) || (q_align q c mod 8 =? 0)) &&
   (own_size a c =? Z.max (size_of t) m) &&
   match q_cls q va c with
   | KInt => ty_is_int t && (q_int_rt q t =? (if t <=? 39 then RT_Gp32 else RT_Gp64))
   | KSse => negb (ty_is_int t) && (ty_is_float t || ty_is_vec t) && negb (a64_vec_regtype t =? 0) && (q_vec_rt q t =? a64_vec_regtype t)
   | KMem => false
   end.
+
+Lemma a64_agree_facts a q va m c : a64_agree a q va m c = true -> c_lo c = false /\ (c_ty c =? 0) = false.
+Proof.
+  unfold a64_agree. intros H. destruct (c_lo c); destruct (c_ty c =? 0); cbn [negb andb] in H; try discriminate H.
+  split; reflexivity.
+Qed.
 
 Lemma a64_stack_sim a q va m c nsaa s :
   a64_agree a q va m c = true -> x_off s = nsaa ->
@@ -297,8 +314,9 @@ Lemma a64_value_sim a cc q va m c pre nsaa s :
     let '(l, n') := spec_step q va pre nsaa c in loc_of v = l /\ xinv q va (pre ++ [c]) n' s'.
 Proof.
   intros R A I G. destruct R as [Rgp Rvec Lgp Lvec Fgp Fvec]. destruct I as (Ig & Iv & Io).
-  pose proof A as A0. unfold a64_agree in A. apply andb_prop in A. destruct A as [_ A].
-  unfold guard_comp in G. unfold spec_step, seq_reg in *. unfold xinv. rewrite !count_cls_app.
+  pose proof A as A0. destruct (a64_agree_facts _ _ _ _ _ A) as [Alo _].
+  unfold a64_agree in A. apply andb_prop in A. destruct A as [_ A].
+  unfold guard_comp in G. unfold spec_step, seq_reg in *. rewrite Alo in *. cbn [andb] in *. unfold xinv. rewrite !count_cls_app.
   destruct (q_cls q va c) eqn:K; cbn [acls_eqb]; [| |discriminate].
   - apply andb_prop in A. destruct A as [A1 A2]. apply Z.eqb_eq in A2.
     unfold a64_value. rewrite A1, Rgp.
@@ -334,7 +352,7 @@ Proof.
 Qed.
 
 Definition a64_type_ok (a : abi_id) (q : seqabi) (va : bool) (m : Z) (t : Z) : bool :=
-  a64_agree a q va m (mkComp t false) && match q_expand q t with [c] => (c_ty c =? t) && negb (c_half c) | _ => false end.
+  a64_agree a q va m (mkComp t false false) && match q_expand q t with [c] => (c_ty c =? t) && negb (c_half c) && negb (c_lo c) | _ => false end.
 
 Lemma a64_args_sim a cc q va m : xrel cc q -> forall ts pre nsaa s,
   forallb (a64_type_ok a q va m) ts = true -> xinv q va pre nsaa s -> guard_args a q va pre nsaa ts = true ->
@@ -348,26 +366,26 @@ Proof.
     cbn [guard_args] in G. apply andb_prop in G. destruct G as [G1 G2].
     cbn [a64_args seq_args].
     destruct (q_expand q t) as [|c [|c2 cr]] eqn:EX; try discriminate.
-    apply andb_prop in A12. destruct A12 as [A121 A122]. apply Z.eqb_eq in A121. apply negb_true_iff in A122.
-    assert (c = mkComp t false) as -> by (destruct c; cbn in *; subst; reflexivity).
+    apply andb_prop in A12. destruct A12 as [A12 A123]. apply andb_prop in A12. destruct A12 as [A121 A122].
+    apply Z.eqb_eq in A121. apply negb_true_iff in A122. apply negb_true_iff in A123.
+    assert (c = mkComp t false false) as -> by (destruct c; cbn in *; subst; reflexivity).
     cbn [guard_comps] in G1. apply andb_prop in G1. destruct G1 as [G11 _].
-    destruct (a64_value_sim a cc q va m (mkComp t false) pre nsaa s R A11 I G11) as (v & s1 & E1 & S).
+    destruct (a64_value_sim a cc q va m (mkComp t false false) pre nsaa s R A11 I G11) as (v & s1 & E1 & S).
     cbn [c_ty] in E1. rewrite E1. cbn [seq_comps] in *. unfold spec_step in S.
-    assert ((t =? 0) = false) as Ht.
-    { unfold a64_agree in A11. repeat (apply andb_prop in A11; destruct A11 as [A11 _]). apply negb_true_iff in A11. exact A11. }
+    assert ((t =? 0) = false) as Ht by (exact (proj2 (a64_agree_facts _ _ _ _ _ A11))).
     rewrite Ht.
-    destruct (seq_reg q va pre (mkComp t false)) as [[rt id]|].
+    destruct (seq_reg q va pre (mkComp t false false)) as [[rt id]|].
     + destruct S as [S1 S2]. destruct (IH _ _ _ A2 S2 G2) as (ps & s2 & E2 & S3). rewrite E2.
-      destruct (seq_args q va (pre ++ [mkComp t false]) nsaa r) as [lss n2].
+      destruct (seq_args q va (pre ++ [mkComp t false false]) nsaa r) as [lss n2].
       eexists. eexists. split; [reflexivity|]. destruct S3 as [S31 S32].
       split; [cbn [map]; rewrite S1, S31; reflexivity | exact S32].
     + destruct S as [S1 S2]. destruct (IH _ _ _ A2 S2 G2) as (ps & s2 & E2 & S3). rewrite E2.
-      destruct (seq_args q va (pre ++ [mkComp t false]) (round_up nsaa (q_align q (mkComp t false)) + q_slot q (mkComp t false)) r) as [lss n2].
+      destruct (seq_args q va (pre ++ [mkComp t false false]) (round_up nsaa (q_align q (mkComp t false false)) + q_slot q (mkComp t false false)) r) as [lss n2].
       eexists. eexists. split; [reflexivity|]. destruct S3 as [S31 S32].
       split; [cbn [map]; rewrite S1, S31; reflexivity | exact S32].
 Qed.
 
-(* ------------------------------------------------------------------ Win64 *)
+(* ------------------------------------------------------------------ Win64 / vectorcall (positional) *)
 Lemma order_at_win_gp i : 0 <= i -> order_at [1; 2; 8; 9] i = if i <? 4 then nth (Z.to_nat i) win_gp 0 else 255.
 Proof.
   intros Hi. destruct (Z.ltb_spec i 4).
@@ -376,12 +394,19 @@ Proof.
     assert (nth_error [1; 2; 8; 9] (Z.to_nat i) = None) as -> by (apply nth_error_None; cbn; lia). reflexivity.
 Qed.
 
-Lemma order_at_win_vec i : 0 <= i -> order_at [0; 1; 2; 3] i = if i <? 4 then i else 255.
+Definition win_vec_order (vc : bool) : list Z := if vc then [0; 1; 2; 3; 4; 5] else [0; 1; 2; 3].
+
+Lemma order_at_win_vec vc i : 0 <= i -> order_at (win_vec_order vc) i = if i <? win_nvec vc then i else 255.
 Proof.
-  intros Hi. destruct (Z.ltb_spec i 4).
-  - assert (i = 0 \/ i = 1 \/ i = 2 \/ i = 3) as [-> | [-> | [-> | ->]]] by lia; reflexivity.
-  - rewrite order_at_spec by (cbn; lia).
-    assert (nth_error [0; 1; 2; 3] (Z.to_nat i) = None) as -> by (apply nth_error_None; cbn; lia). reflexivity.
+  intros Hi. destruct vc; cbn [win_vec_order win_nvec].
+  - destruct (Z.ltb_spec i 6).
+    + assert (i = 0 \/ i = 1 \/ i = 2 \/ i = 3 \/ i = 4 \/ i = 5) as [-> | [-> | [-> | [-> | [-> | ->]]]]] by lia; reflexivity.
+    + rewrite order_at_spec by (cbn; lia).
+      assert (nth_error [0; 1; 2; 3; 4; 5] (Z.to_nat i) = None) as -> by (apply nth_error_None; cbn; lia). reflexivity.
+  - destruct (Z.ltb_spec i 4).
+    + assert (i = 0 \/ i = 1 \/ i = 2 \/ i = 3) as [-> | [-> | [-> | ->]]] by lia; reflexivity.
+    + rewrite order_at_spec by (cbn; lia).
+      assert (nth_error [0; 1; 2; 3] (Z.to_nat i) = None) as -> by (apply nth_error_None; cbn; lia). reflexivity.
 Qed.
 
 Lemma win_gp_not255 i : 0 <= i < 4 -> (nth (Z.to_nat i) win_gp 0 =? 255) = false.
@@ -392,59 +417,54 @@ Definition win_type_ok (t : Z) : bool :=
   if t_int t || t_mask t || t_m64 t
   then (ty_is_int t || ty_is_mmx t) && Bool.eqb ((size_of t <=? 4) && negb (ty_is_mmx t)) ((abi_bytes t <=? 4) && negb (t_m64 t))
   else if t_f32 t || t_f64 t
-  then negb (ty_is_int t || ty_is_mmx t) && (ty_is_float t || ty_is_vec t) && ty_is_float t
+  then negb (ty_is_int t || ty_is_mmx t) && (ty_is_float t || ty_is_vec t) && ty_is_float t && (x86_vec_regtype t =? Xmm)
   else negb (ty_is_int t || ty_is_mmx t) && (ty_is_float t || ty_is_vec t) && negb (ty_is_float t)
-       && (t_v128 t || t_v256 t || t_v512 t).
+       && (x86_vec_rt t =? x86_vec_regtype t).
 
-Lemma win_value_sim cc i off t :
-  cc_ogp cc = [1; 2; 8; 9] -> cc_ovec cc = [0; 1; 2; 3] -> cc_strategy cc = 1 ->
-  0 <= i -> win_type_ok t = true -> off = 8 * Z.max i 4 ->
-  (negb (i <? 4) || negb (t_v128 t || t_v256 t || t_v512 t)) = true ->
-  let '(v, off') := win64_value cc i off t in loc_of v = win_arg i t /\ off' = 8 * Z.max (i + 1) 4.
+Lemma win_value_sim cc vc i t :
+  cc_ogp cc = [1; 2; 8; 9] -> cc_ovec cc = win_vec_order vc -> cc_strategy cc = (if vc then 2 else 1) ->
+  0 <= i -> win_type_ok t = true -> loc_of (win64_value cc i t) = win_arg vc i t.
 Proof.
-  intros Hg Hv Hs Hi T Ho G. unfold win_type_ok in T. apply andb_prop in T. destruct T as [_ T].
-  unfold win64_value, win_arg. rewrite Hg, Hv, Hs. cbn [Z.eqb Pos.eqb].
+  intros Hg Hv Hs Hi T. unfold win_type_ok in T. apply andb_prop in T. destruct T as [_ T].
+  unfold win64_value, win_arg. rewrite Hg, Hv, Hs.
   rewrite order_at_win_gp, order_at_win_vec by exact Hi.
+  assert (Hvc : ((if vc then 2 else 1) =? 2) = vc) by (destruct vc; reflexivity). rewrite Hvc.
   destruct (t_int t || t_mask t || t_m64 t) eqn:C1.
   - apply andb_prop in T. destruct T as [T1 T2]. apply eqb_prop in T2. rewrite T1.
     destruct (Z.ltb_spec i 4).
-    + rewrite win_gp_not255 by lia. cbn [negb]. rewrite T2. split; [reflexivity | lia].
-    + cbn [Z.eqb negb]. assert (off = 8 * i) as -> by lia. split; [reflexivity | lia].
+    + rewrite win_gp_not255 by lia. cbn [negb]. rewrite T2. reflexivity.
+    + reflexivity.
   - destruct (t_f32 t || t_f64 t) eqn:C2.
-    + apply andb_prop in T. destruct T as [T T3]. apply andb_prop in T. destruct T as [T1 T2].
-      apply negb_true_iff in T1. rewrite T1, T2, T3.
-      destruct (Z.ltb_spec i 4).
-      * assert ((i =? 255) = false) as -> by (apply Z.eqb_neq; lia). cbn [negb andb orb].
-        unfold x86_vec_regtype. destruct (t <=? 80) eqn:E80.
-        -- split; [reflexivity | lia].
-        -- exfalso. apply orb_prop in C2. unfold t_f32, t_f64 in C2. destruct C2 as [C2 | C2]; apply Z.eqb_eq in C2; subst; discriminate.
-      * cbn [Z.eqb negb andb]. assert (off = 8 * i) as -> by lia. split; [reflexivity | lia].
+    + apply andb_prop in T. destruct T as [T T4]. apply andb_prop in T. destruct T as [T T3]. apply andb_prop in T. destruct T as [T1 T2].
+      apply negb_true_iff in T1. apply Z.eqb_eq in T4. rewrite T1, T2, T3.
+      destruct (Z.ltb_spec i (win_nvec vc)).
+      * assert ((i =? 255) = false) as -> by (apply Z.eqb_neq; destruct vc; cbn [win_nvec] in *; lia). cbn [negb andb orb].
+        unfold loc_of, fv_reg, L_reg. cbn [fv_kind fv_rtype fv_rid fv_off fv_ind]. rewrite T4. reflexivity.
+      * reflexivity.
     + apply andb_prop in T. destruct T as [T T4]. apply andb_prop in T. destruct T as [T T3].
-      apply andb_prop in T. destruct T as [T1 T2]. apply negb_true_iff in T1. apply negb_true_iff in T3.
-      rewrite T1, T2, T3. cbn [orb]. rewrite andb_false_r.
-      destruct (Z.ltb_spec i 4).
-      * exfalso. rewrite T4 in G. destruct (i <? 4) eqn:E; [discriminate | apply Z.ltb_ge in E; lia].
-      * cbn [Z.eqb negb]. assert (off = 8 * i) as -> by lia. split; [reflexivity | lia].
+      apply andb_prop in T. destruct T as [T1 T2]. apply negb_true_iff in T1. apply negb_true_iff in T3. apply Z.eqb_eq in T4.
+      rewrite T1, T2, T3. cbn [orb].
+      destruct vc; cbn [win_nvec andb].
+      * destruct (Z.ltb_spec i 6).
+        -- assert ((i =? 255) = false) as -> by (apply Z.eqb_neq; lia). cbn [negb andb].
+           unfold loc_of, fv_reg, L_reg. cbn [fv_kind fv_rtype fv_rid fv_off fv_ind]. rewrite T4. reflexivity.
+        -- cbn [Z.eqb negb andb]. destruct (Z.ltb_spec i 4); [lia | reflexivity].
+      * rewrite andb_false_r.
+        destruct (Z.ltb_spec i 4).
+        -- rewrite win_gp_not255 by lia. reflexivity.
+        -- reflexivity.
 Qed.
 
-Lemma win_args_sim cc : cc_ogp cc = [1; 2; 8; 9] -> cc_ovec cc = [0; 1; 2; 3] -> cc_strategy cc = 1 ->
-  forall ts i off, 0 <= i -> forallb win_type_ok ts = true -> off = 8 * Z.max i 4 -> guard_win i ts = true ->
-  let '(ps, off') := win64_args cc i off ts in
-  map (map loc_of) ps = win_args i ts /\ off' = 8 * Z.max (i + Z.of_nat (length ts)) 4.
+Lemma win_args_sim cc vc : cc_ogp cc = [1; 2; 8; 9] -> cc_ovec cc = win_vec_order vc -> cc_strategy cc = (if vc then 2 else 1) ->
+  forall ts i, 0 <= i -> forallb win_type_ok ts = true -> map (map loc_of) (win64_args cc i ts) = win_args vc i ts.
 Proof.
-  intros Hg Hv Hs. induction ts as [|t r IH]; intros i off Hi A Ho G.
-  - cbn. split; [reflexivity | rewrite Z.add_0_r; exact Ho].
+  intros Hg Hv Hs. induction ts as [|t r IH]; intros i Hi A.
+  - reflexivity.
   - cbn [forallb] in A. apply andb_prop in A. destruct A as [A1 A2].
-    cbn [guard_win] in G. apply andb_prop in G. destruct G as [G1 G2].
     cbn [win64_args win_args].
     assert ((t =? 0) = false) as ->.
     { unfold win_type_ok in A1. apply andb_prop in A1. destruct A1 as [A1 _]. apply negb_true_iff in A1. exact A1. }
-    pose proof (win_value_sim cc i off t Hg Hv Hs Hi A1 Ho G1) as S.
-    destruct (win64_value cc i off t) as [v o1]. destruct S as [S1 S2].
-    specialize (IH (i + 1) o1 ltac:(lia) A2 S2 G2).
-    destruct (win64_args cc (i + 1) o1 r) as [ps o2]. destruct IH as [IH1 IH2].
-    split; [cbn [map]; rewrite S1, IH1; reflexivity|].
-    rewrite IH2. cbn [length]. f_equal. lia.
+    cbn [map]. rewrite (win_value_sim cc vc i t Hg Hv Hs Hi A1), (IH (i + 1) ltac:(lia) A2). reflexivity.
 Qed.
 
 (* ------------------------------------------------------------------ finite tables (checked by computation) *)
@@ -458,9 +478,10 @@ Qed.
 
 Definition canon_env (a : abi_id) : env * Z :=
   match a with
-  | SysV64 => (mkEnv X64 0 0, 32) | Win64 => (mkEnv X64 1 1, 33)
+  | SysV64 => (mkEnv X64 0 0, 32) | Win64 => (mkEnv X64 1 1, 33) | Vectorcall64 => (mkEnv X64 1 1, 3)
   | Cdecl32 => (mkEnv X86 0 0, 0) | Stdcall32 => (mkEnv X86 0 0, 1) | Fastcall32 => (mkEnv X86 0 0, 2)
   | Thiscall32 => (mkEnv X86 1 1, 4)
+  | Regparm32 n => (mkEnv X86 0 0, 4 + Z.of_nat n)
   | Aapcs64 => (mkEnv A64 0 0, 0) | Apple64 => (mkEnv A64 2 2, 0)
   end.
 Definition canon_cc (a : abi_id) : callconv :=
@@ -475,9 +496,13 @@ Proof.
   - destruct (Z.eqb_spec ccid 0) as [->|N0]; [inversion H; reflexivity|].
     destruct (Z.eqb_spec ccid 1) as [->|N1]; [inversion H; reflexivity|].
     destruct (Z.eqb_spec ccid 2) as [->|N2]; [inversion H; reflexivity|].
-    destruct (Z.eqb_spec ccid 4) as [->|N4]; [destruct w; inversion H; reflexivity|]. discriminate.
+    destruct (Z.eqb_spec ccid 4) as [->|N4]; [destruct w; inversion H; reflexivity|].
+    destruct (Z.eqb_spec ccid 5) as [->|N5]; [inversion H; reflexivity|].
+    destruct (Z.eqb_spec ccid 6) as [->|N6]; [inversion H; reflexivity|].
+    destruct (Z.eqb_spec ccid 7) as [->|N7]; [inversion H; reflexivity|]. discriminate.
   - destruct (Z.eqb_spec ccid 32) as [->|N32]; [inversion H; reflexivity|].
     destruct (Z.eqb_spec ccid 33) as [->|N33]; [inversion H; reflexivity|].
+    destruct (Z.eqb_spec ccid 3) as [->|N3]; [inversion H; reflexivity|].
     destruct (Z.eqb_spec ccid 0) as [->|N0]; [destruct w; inversion H; reflexivity|].
     destruct (Z.eqb_spec ccid 1) as [->|N1]; [destruct w; inversion H; reflexivity|].
     destruct (Z.eqb_spec ccid 2) as [->|N2]; [destruct w; inversion H; reflexivity|].
@@ -489,6 +514,15 @@ Proof.
         apply andb_true_intro. split; apply Z.leb_le; lia.
       - apply Z.eqb_eq in C. subst. reflexivity. }
     destruct dw; inversion H; reflexivity.
+Qed.
+
+Lemma abi_of_regparm e ccid n : abi_of_env e ccid = Some (Regparm32 n) -> (1 <= n <= 3)%nat.
+Proof.
+  unfold abi_of_env, abi_of. destruct e as [ar pl ab]. cbn [e_arch]. unfold e_win, e_darwin. cbn [e_arch e_plat e_abi].
+  destruct ((pl =? 1) || (ab =? 1)); destruct (ab =? 2); destruct ar; cbn [arch_code Z.eqb]; intros H;
+    repeat match type of H with
+           | (if ?b then _ else _) = _ => destruct b
+           end; try discriminate H; inversion H; subst; lia.
 Qed.
 
 (* ------------------------------------------------------------------ putting the strategies together *)
@@ -530,7 +564,7 @@ Lemma split_guard a va ret args :
   abi_guard a va ret args = true ->
   forallb (fun t => inr_ t 0 255 && univ_of a t && guard_type a t) args = true /\ inr_ ret 0 255 = true /\ ret_guard a ret = true /\
   guard_va a va = true /\
-  match seq_of a with Some q => guard_args a q va [] 0 args | None => guard_win 0 args end = true.
+  match seq_of a with Some q => guard_args a q va [] 0 args | None => true end = true.
 Proof.
   unfold abi_guard, ret_guard. intros H.
   apply andb_prop in H. destruct H as [H H5]. apply andb_prop in H. destruct H as [H H4].
@@ -612,42 +646,50 @@ Proof.
   rewrite Hrd, S2. repeat split; assumption.
 Qed.
 
-Definition win_tab (cc : callconv) : bool :=
-  forallb (fun t => implb (inr_ t 0 255 && arg_guard Win64 t) (win_type_ok t && (deabstract (cc_arch cc) t =? t))) (range 0 256).
+Definition win_tab (a : abi_id) (cc : callconv) : bool :=
+  forallb (fun t => implb (inr_ t 0 255 && arg_guard a t) (win_type_ok t && (deabstract (cc_arch cc) t =? t))) (range 0 256).
 
-Lemma win_top s ret args :
-  abi_guard Win64 (sig_has_va s) ret args = true ->
-  exists d, x86_init_func_detail (canon_cc Win64) s (deabstract X64 ret) (map (deabstract X64) args) = R_ok d /\
-    fd_cc d = canon_cc Win64 /\
-    map (map loc_of) (fd_args d) = an_args (abi_spec Win64 (sig_has_va s) ret args) /\
-    map loc_of (fd_rets d) = an_rets (abi_spec Win64 (sig_has_va s) ret args) /\
-    fd_stack d = an_stack (abi_spec Win64 (sig_has_va s) ret args).
+Lemma win_top a vc s ret args :
+  seq_of a = None -> vc = (match a with Vectorcall64 => true | _ => false end) ->
+  cc_arch (canon_cc a) = X64 -> cc_ogp (canon_cc a) = [1; 2; 8; 9] -> cc_ovec (canon_cc a) = win_vec_order vc ->
+  cc_strategy (canon_cc a) = (if vc then 2 else 1) ->
+  win_tab a (canon_cc a) = true ->
+  ret_tab (fun t => rets_loop (x86_ret_one (canon_cc a)) 0 (x86_unpack X64 t)) X64 a = true ->
+  abi_guard a (sig_has_va s) ret args = true ->
+  exists d, x86_init_func_detail (canon_cc a) s (deabstract X64 ret) (map (deabstract X64) args) = R_ok d /\
+    fd_cc d = canon_cc a /\
+    map (map loc_of) (fd_args d) = an_args (abi_spec a (sig_has_va s) ret args) /\
+    map loc_of (fd_rets d) = an_rets (abi_spec a (sig_has_va s) ret args) /\
+    fd_stack d = an_stack (abi_spec a (sig_has_va s) ret args).
 Proof.
-  intros G. set (cc := canon_cc Win64) in *.
-  assert (Tab : win_tab cc = true) by (vm_compute; reflexivity).
-  assert (RTab : ret_tab (fun t => rets_loop (x86_ret_one cc) 0 (x86_unpack X64 t)) X64 Win64 = true) by (vm_compute; reflexivity).
-  destruct (split_guard _ _ _ _ G) as (Ga & Gr & Grg & Gva & Gg). cbn [seq_of] in Gg.
-  destruct (args_table Win64 win_type_ok (deabstract X64)) with (args := args) as [Ht Hd]; [|exact Ga|].
-  { intros t Hr Hg. pose proof (table256 (arg_guard Win64) (fun t => win_type_ok t && (deabstract (cc_arch cc) t =? t)) Tab t Hr Hg) as X.
-    cbv beta in X. apply andb_prop in X. destruct X as [X1 X2].
+  intros Hq Hvc Har Hg Hv Hs Tab RTab G. set (cc := canon_cc a) in *.
+  destruct (split_guard _ _ _ _ G) as (Ga & Gr & Grg & Gva & _).
+  destruct (args_table a win_type_ok (deabstract X64)) with (args := args) as [Ht Hd]; [|exact Ga|].
+  { intros t Hr Hgd. pose proof (table256 (arg_guard a) (fun t => win_type_ok t && (deabstract (cc_arch cc) t =? t)) Tab t Hr Hgd) as X.
+    cbv beta in X. apply andb_prop in X. destruct X as [X1 X2]. rewrite Har in X2.
     apply Z.eqb_eq in X2. split; assumption. }
-  pose proof (table256 (ret_guard Win64) (ret_ok (fun t => rets_loop (x86_ret_one cc) 0 (x86_unpack X64 t)) X64 Win64) RTab ret Gr Grg) as Rk.
+  pose proof (table256 (ret_guard a) (ret_ok (fun t => rets_loop (x86_ret_one cc) 0 (x86_unpack X64 t)) X64 a) RTab ret Gr Grg) as Rk.
   unfold ret_ok in Rk. apply andb_prop in Rk. destruct Rk as [Rk1 Rk2].
   apply Z.eqb_eq in Rk1. rewrite Hd, Rk1.
-  unfold x86_init_func_detail. change (cc_arch cc) with X64.
+  unfold x86_init_func_detail. rewrite Har.
   destruct (if ret =? 0 then inl [] else rets_loop (x86_ret_one cc) 0 (x86_unpack X64 ret)) as [rets|] eqn:ER; [|discriminate].
   apply (list_eqb_eq aloc_eqb aloc_eqb_eq) in Rk2.
-  change (cc_strategy cc) with 1. cbn [Z.eqb Pos.eqb orb]. change (cc_spill cc) with 32.
-  pose proof (win_args_sim cc eq_refl eq_refl eq_refl args 0 32 ltac:(lia) Ht ltac:(lia) Gg) as S.
-  destruct (win64_args cc 0 32 args) as [ps off]. destruct S as [S1 S2].
-  eexists. split; [reflexivity|]. unfold abi_spec. cbn [seq_of fd_cc fd_args fd_rets fd_stack an_args an_rets an_stack].
-  repeat split; assumption.
+  assert (Hst : ((cc_strategy cc =? 1) || (cc_strategy cc =? 2)) = true) by (rewrite Hs; destruct vc; reflexivity).
+  rewrite Hst.
+  pose proof (win_args_sim cc vc Hg Hv Hs args 0 ltac:(lia) Ht) as S.
+  eexists. split; [reflexivity|]. unfold abi_spec. rewrite Hq. rewrite <- Hvc.
+  cbn [fd_cc fd_args fd_rets fd_stack an_args an_rets an_stack].
+  repeat split; try assumption.
 Qed.
 
 Ltac solve_xrel := constructor; [reflexivity | reflexivity | cbn; lia | cbn; lia | repeat (constructor; try lia) | repeat (constructor; try lia)].
 
-Lemma consts_canon a : consts_of (canon_cc a) = abi_consts a.
-Proof. destruct a; vm_compute; reflexivity. Qed.
+Lemma consts_canon a : (forall n, a = Regparm32 n -> (1 <= n <= 3)%nat) -> consts_of (canon_cc a) = abi_consts a.
+Proof.
+  destruct a; intros H;
+    try (lazymatch goal with |- context [Regparm32] => fail | _ => idtac end; vm_compute; reflexivity).
+  specialize (H n eq_refl). destruct n as [|[|[|[|n]]]]; try lia; vm_compute; reflexivity.
+Qed.
 
 Theorem assign_matches_abi : forall e s a,
   abi_of_env e (s_cc s) = Some a -> (length (s_args s) <= 32)%nat ->
@@ -657,29 +699,39 @@ Proof.
   intros e s a Ha Hl G. unfold func_detail_init.
   assert ((32 <? Z.of_nat (length (s_args s))) = false) as -> by (apply Z.ltb_ge; lia).
   rewrite (init_cc_canon _ _ _ Ha). unfold agrees.
+  assert (Hrp : forall n, a = Regparm32 n -> (1 <= n <= 3)%nat) by (intros n ->; exact (abi_of_regparm _ _ _ Ha)).
+  pose proof (consts_canon a Hrp) as CC. clear Hrp.
   destruct a.
   - (* System V AMD64 *)
     assert (EA : cc_arch (canon_cc SysV64) = X64) by reflexivity. rewrite EA.
     destruct (x86_top SysV64 q_sysv s (s_ret s) (s_args s)) as (d & E & Ecc & E1 & E2 & E3);
       [reflexivity | solve_xrel | reflexivity | reflexivity | reflexivity
        | destruct (sig_has_va s); vm_compute; reflexivity | vm_compute; reflexivity | exact G |].
-    rewrite EA in E. exists d. split; [exact E|]. rewrite Ecc, consts_canon. repeat split; assumption.
+    rewrite EA in E. exists d. split; [exact E|]. rewrite Ecc. repeat split; assumption.
   - (* Win64 *)
     assert (EA : cc_arch (canon_cc Win64) = X64) by reflexivity. rewrite EA.
-    destruct (win_top s (s_ret s) (s_args s) G) as (d & E & Ecc & E1 & E2 & E3).
-    exists d. split; [exact E|]. rewrite Ecc, consts_canon. repeat split; assumption.
+    destruct (win_top Win64 false s (s_ret s) (s_args s)) as (d & E & Ecc & E1 & E2 & E3);
+      [reflexivity | reflexivity | reflexivity | reflexivity | reflexivity | reflexivity
+       | vm_compute; reflexivity | vm_compute; reflexivity | exact G |].
+    exists d. split; [exact E|]. rewrite Ecc. repeat split; assumption.
+  - (* x64 vectorcall *)
+    assert (EA : cc_arch (canon_cc Vectorcall64) = X64) by reflexivity. rewrite EA.
+    destruct (win_top Vectorcall64 true s (s_ret s) (s_args s)) as (d & E & Ecc & E1 & E2 & E3);
+      [reflexivity | reflexivity | reflexivity | reflexivity | reflexivity | reflexivity
+       | vm_compute; reflexivity | vm_compute; reflexivity | exact G |].
+    exists d. split; [exact E|]. rewrite Ecc. repeat split; assumption.
   - (* cdecl, 32-bit *)
     assert (EA : cc_arch (canon_cc Cdecl32) = X86) by reflexivity. rewrite EA.
     destruct (x86_top Cdecl32 (q_i386 []) s (s_ret s) (s_args s)) as (d & E & Ecc & E1 & E2 & E3);
       [reflexivity | solve_xrel | reflexivity | reflexivity | reflexivity
        | destruct (sig_has_va s); vm_compute; reflexivity | vm_compute; reflexivity | exact G |].
-    rewrite EA in E. exists d. split; [exact E|]. rewrite Ecc, consts_canon. repeat split; assumption.
+    rewrite EA in E. exists d. split; [exact E|]. rewrite Ecc. repeat split; assumption.
   - (* stdcall *)
     assert (EA : cc_arch (canon_cc Stdcall32) = X86) by reflexivity. rewrite EA.
     destruct (x86_top Stdcall32 (q_i386 []) s (s_ret s) (s_args s)) as (d & E & Ecc & E1 & E2 & E3);
       [reflexivity | solve_xrel | reflexivity | reflexivity | reflexivity
        | destruct (sig_has_va s); vm_compute; reflexivity | vm_compute; reflexivity | exact G |].
-    rewrite EA in E. exists d. split; [exact E|]. rewrite Ecc, consts_canon. repeat split; assumption.
+    rewrite EA in E. exists d. split; [exact E|]. rewrite Ecc. repeat split; assumption.
   - (* fastcall *)
     assert (EA : cc_arch (canon_cc Fastcall32) = X86) by reflexivity. rewrite EA.
     assert (Hva : sig_has_va s = false).
@@ -687,7 +739,7 @@ Proof.
     destruct (x86_top Fastcall32 (q_i386 [1; 2]) s (s_ret s) (s_args s)) as (d & E & Ecc & E1 & E2 & E3);
       [reflexivity | solve_xrel | reflexivity | reflexivity | reflexivity
        | rewrite Hva; vm_compute; reflexivity | vm_compute; reflexivity | exact G |].
-    rewrite EA in E. exists d. split; [exact E|]. rewrite Ecc, consts_canon. repeat split; assumption.
+    rewrite EA in E. exists d. split; [exact E|]. rewrite Ecc. repeat split; assumption.
   - (* thiscall (Microsoft) *)
     assert (EA : cc_arch (canon_cc Thiscall32) = X86) by reflexivity. rewrite EA.
     assert (Hva : sig_has_va s = false).
@@ -695,13 +747,33 @@ Proof.
     destruct (x86_top Thiscall32 (q_i386 [1]) s (s_ret s) (s_args s)) as (d & E & Ecc & E1 & E2 & E3);
       [reflexivity | solve_xrel | reflexivity | reflexivity | reflexivity
        | rewrite Hva; vm_compute; reflexivity | vm_compute; reflexivity | exact G |].
-    rewrite EA in E. exists d. split; [exact E|]. rewrite Ecc, consts_canon. repeat split; assumption.
+    rewrite EA in E. exists d. split; [exact E|]. rewrite Ecc. repeat split; assumption.
+  - (* GNU regparm(1..3) *)
+    pose proof (abi_of_regparm _ _ _ Ha) as Hn.
+    assert (Hva : sig_has_va s = false).
+    { destruct (split_guard _ _ _ _ G) as (_ & _ & _ & Gva & _). cbn in Gva. apply negb_true_iff in Gva. exact Gva. }
+    destruct n as [|[|[|[|n]]]]; try lia.
+    + assert (EA : cc_arch (canon_cc (Regparm32 1)) = X86) by reflexivity. rewrite EA.
+      destruct (x86_top (Regparm32 1) (q_regparm 1) s (s_ret s) (s_args s)) as (d & E & Ecc & E1 & E2 & E3);
+        [reflexivity | solve_xrel | reflexivity | reflexivity | reflexivity
+         | rewrite Hva; vm_compute; reflexivity | vm_compute; reflexivity | exact G |].
+      rewrite EA in E. exists d. split; [exact E|]. rewrite Ecc. repeat split; assumption.
+    + assert (EA : cc_arch (canon_cc (Regparm32 2)) = X86) by reflexivity. rewrite EA.
+      destruct (x86_top (Regparm32 2) (q_regparm 2) s (s_ret s) (s_args s)) as (d & E & Ecc & E1 & E2 & E3);
+        [reflexivity | solve_xrel | reflexivity | reflexivity | reflexivity
+         | rewrite Hva; vm_compute; reflexivity | vm_compute; reflexivity | exact G |].
+      rewrite EA in E. exists d. split; [exact E|]. rewrite Ecc. repeat split; assumption.
+    + assert (EA : cc_arch (canon_cc (Regparm32 3)) = X86) by reflexivity. rewrite EA.
+      destruct (x86_top (Regparm32 3) (q_regparm 3) s (s_ret s) (s_args s)) as (d & E & Ecc & E1 & E2 & E3);
+        [reflexivity | solve_xrel | reflexivity | reflexivity | reflexivity
+         | rewrite Hva; vm_compute; reflexivity | vm_compute; reflexivity | exact G |].
+      rewrite EA in E. exists d. split; [exact E|]. rewrite Ecc. repeat split; assumption.
   - (* AAPCS64 *)
     assert (EA : cc_arch (canon_cc Aapcs64) = A64) by reflexivity. rewrite EA.
     destruct (a64_top Aapcs64 q_aapcs64 s (s_ret s) (s_args s) 8) as (d & E & Ecc & E1 & E2 & E3);
       [reflexivity | solve_xrel | reflexivity | left; split; reflexivity | reflexivity
        | destruct (sig_has_va s); vm_compute; reflexivity | vm_compute; reflexivity | exact G |].
-    exists d. split; [exact E|]. rewrite Ecc, consts_canon. repeat split; assumption.
+    exists d. split; [exact E|]. rewrite Ecc. repeat split; assumption.
   - (* Apple arm64 *)
     assert (EA : cc_arch (canon_cc Apple64) = A64) by reflexivity. rewrite EA.
     assert (Hva : sig_has_va s = false).
@@ -709,20 +781,23 @@ Proof.
     destruct (a64_top Apple64 q_apple64 s (s_ret s) (s_args s) 4) as (d & E & Ecc & E1 & E2 & E3);
       [reflexivity | solve_xrel | reflexivity | right; split; reflexivity | reflexivity
        | rewrite Hva; vm_compute; reflexivity | vm_compute; reflexivity | exact G |].
-    exists d. split; [exact E|]. rewrite Ecc, consts_canon. repeat split; assumption.
+    exists d. split; [exact E|]. rewrite Ecc. repeat split; assumption.
 Qed.
 
 (* ------------------------------------------------------------------ constants of every (target, CallConvId) pair with an ABI *)
 Theorem callconv_constants : forall e ccid a, abi_of_env e ccid = Some a ->
   exists c, init_call_conv e ccid = inl c /\ consts_of c = abi_consts a.
-Proof. intros e ccid a H. exists (canon_cc a). split; [apply init_cc_canon; exact H | apply consts_canon]. Qed.
+Proof.
+  intros e ccid a H. exists (canon_cc a). split; [apply init_cc_canon; exact H | apply consts_canon].
+  intros n ->. exact (abi_of_regparm _ _ _ H).
+Qed.
 
 (* ------------------------------------------------------------------ arguments 16..31 of the positional conventions never get a register
    (the statement the unguarded look-up of DESIGN 7.4 violated: it read the Vec order array and returned GP ids 0..3) *)
 Lemma order_at_high l i : 16 <= i -> order_at l i = 255.
 Proof. intros H. unfold order_at. destruct (Z.ltb_spec i 16); [lia | reflexivity]. Qed.
 
-Lemma win64_value_high c i off t : 16 <= i -> fv_kind (fst (win64_value c i off t)) <> 1.
+Lemma win64_value_high c i t : 16 <= i -> fv_kind (win64_value c i t) <> 1.
 Proof.
   intros H. unfold win64_value. rewrite !order_at_high by exact H. cbn [Z.eqb negb andb].
   destruct (ty_is_int t || ty_is_mmx t); [cbn; lia|].
@@ -730,16 +805,14 @@ Proof.
   destruct (ty_is_float t); cbn; lia.
 Qed.
 
-Theorem win64_no_reg_beyond_16 : forall c ts i off, 16 <= i ->
-  Forall (fun v => fv_kind v <> 1) (concat (fst (win64_args c i off ts))).
+Theorem win64_no_reg_beyond_16 : forall c ts i, 16 <= i ->
+  Forall (fun v => fv_kind v <> 1) (concat (win64_args c i ts)).
 Proof.
-  intros c. induction ts as [|t r IH]; intros i off H.
+  intros c. induction ts as [|t r IH]; intros i H.
   - cbn. constructor.
-  - cbn [win64_args]. destruct (t =? 0).
-    + specialize (IH (i + 1) off ltac:(lia)). destruct (win64_args c (i + 1) off r) as [ps o2]. cbn in *. exact IH.
-    + pose proof (win64_value_high c i off t H) as V. destruct (win64_value c i off t) as [v o1].
-      specialize (IH (i + 1) o1 ltac:(lia)). destruct (win64_args c (i + 1) o1 r) as [ps o2]. cbn in *.
-      constructor; assumption.
+  - cbn [win64_args concat]. specialize (IH (i + 1) ltac:(lia)). destruct (t =? 0).
+    + cbn [app]. exact IH.
+    + cbn [app]. constructor; [apply win64_value_high; exact H | exact IH].
 Qed.
 
 (* ------------------------------------------------------------------ the hypotheses of assign_matches_abi are satisfiable *)
@@ -748,8 +821,9 @@ Example guard_satisfiable_sysv :
   abi_guard SysV64 false 38 [38; 43; 75; 40; 34; 35; 36; 37; 41; 43; 43; 43; 43; 43; 43; 43; 43; 40; 43; 40; 79; 38] = true.
 Proof. split; vm_compute; reflexivity. Qed.
 Example guard_satisfiable_win64 :
-  abi_of_env (mkEnv X64 1 1) 0 = Some Win64 /\ abi_guard Win64 true 43 [38; 43; 40; 42; 75; 50; 34; 43; 85] = true.
-Proof. split; vm_compute; reflexivity. Qed.
+  abi_of_env (mkEnv X64 1 1) 0 = Some Win64 /\ abi_guard Win64 true 43 [38; 43; 40; 42; 75; 50; 34; 43; 85] = true /\
+  abi_of_env (mkEnv X64 0 0) 3 = Some Vectorcall64 /\ abi_guard Vectorcall64 false 79 [38; 43; 38; 79; 38; 85; 38; 79; 43; 99] = true.
+Proof. repeat split; vm_compute; reflexivity. Qed.
 Example guard_satisfiable_i386 :
   abi_of_env (mkEnv X86 0 0) 2 = Some Fastcall32 /\ abi_guard Fastcall32 false 40 [38; 34; 40; 43; 42; 75; 75; 75; 38] = true /\
   abi_guard Cdecl32 true 43 [38; 40; 43; 41; 36] = true.
@@ -790,10 +864,6 @@ Proof. split; witness. Qed.
 (* 7.5  Apple: 1- and 2-byte stack arguments take 4 bytes (ABI: natural size): f(long x8, char, char) *)
 Theorem apple_stack_subword_refuted : deviates (mkEnv A64 2 2) (mkSig 0 255 0 [40;40;40;40;40;40;40;40;34;34]) Apple64.
 Proof. witness. Qed.
-(* 7.29 Win64: a by-reference vector passed in a register still advances the stack offset: f(__m128) reports 40 bytes *)
-Theorem win64_indirect_bump_refuted :
-  deviates (mkEnv X64 1 1) (mkSig 0 255 0 [75]) Win64 /\ deviates (mkEnv X64 1 1) (mkSig 0 255 0 [75;43;34;43;36]) Win64.
-Proof. split; witness. Qed.
 (* Win64: __mmask arguments get no location *)
 Theorem win64_mask_refuted : deviates (mkEnv X64 1 1) (mkSig 0 255 0 [46]) Win64.
 Proof. witness. Qed.
@@ -811,9 +881,14 @@ Proof. witness. Qed.
 Theorem sysv_mask_return_refuted : deviates (mkEnv X64 0 0) (mkSig 0 255 46 []) SysV64.
 Proof. witness. Qed.
 
-(* x64 __vectorcall (Microsoft; cross-checked with clang): like the x64 convention an argument that is not in a register lives in its
-   positional home slot 8*i and the home area is 32 bytes.  The pinned code lays stack arguments out sequentially after a 48-byte zone. *)
-Theorem vectorcall_stack_refuted :
-  exists d, func_detail_init (mkEnv X64 1 1) (mkSig 3 255 0 [38; 38; 38; 38; 38]) = R_ok d /\
-    nth 4 (map (map loc_of) (fd_args d)) [] <> [L_stack (8 * 4)] /\ fd_stack d <> win_stack_size 5 /\ cc_spill (fd_cc d) <> 32.
-Proof. eexists. split; [vm_compute; reflexivity|]. vm_compute. repeat split; discriminate. Qed.
+
+(* GNU regparm(3): the hypotheses are satisfiable with a 64-bit integer in a register pair (EDX:ECX) ... *)
+Example guard_satisfiable_regparm :
+  abi_of_env (mkEnv X86 0 0) 7 = Some (Regparm32 3) /\ abi_guard (Regparm32 3) false 40 [38; 40; 38; 75; 43] = true /\
+  abi_guard (Regparm32 2) false 38 [40; 38; 40] = true /\ abi_guard (Regparm32 1) false 0 [36; 40; 38] = true.
+Proof. repeat split; vm_compute; reflexivity. Qed.
+(* ... and the pinned code deviates when exactly one register is left: f(int, int, long long) puts the low word in ECX and the high
+   word on the stack (GCC / clang: the whole value on the stack, ECX stays unused) *)
+Theorem regparm_int64_split_refuted :
+  deviates (mkEnv X86 0 0) (mkSig 7 255 0 [38; 38; 40]) (Regparm32 3) /\ deviates (mkEnv X86 0 0) (mkSig 5 255 0 [40]) (Regparm32 1).
+Proof. split; witness. Qed.
